@@ -10,8 +10,9 @@ VERUS = {
     # routine gcd::gcd_ext_in_place: residue = |b|*rhs -/+ g, exact division by lhs, signs, swap), the four ExtendedGcd
     # dispatch impls, gcd_large_dword, gcd_large, Gcd dispatch (ref, ref):
     #   gcd_ext: g >= 1, g | x, g | y, s*x + t*y == g;   gcd: g is the greatest common divisor by divisibility;
-    #   gcd(0, 0) / gcd_ext(0, 0) (documented panic) is the precondition.  KNOWN DEFECT excluded by precondition
-    #   gcd_ext_large_pre: smaller Large operand divides the larger one and is > 2 words shorter (gcd_ext(2^320, 2^128) panics)
+    #   gcd(0, 0) / gcd_ext(0, 0) (documented panic) is the precondition.  The contract covers ALL pairs of Large operands
+    #   (incl. "the smaller divides the larger and is > 2 words shorter", e.g. gcd_ext(2^320, 2^128), which panicked before
+    #   the fix proposed_fixes/G1: residue buffer at least as long as the divisor); the annotated copy is the PATCHED code
     'int_gcd_ops': {'file': 'int_gcd_ops.rs', 'w32': True, 'rlimit': 60},   # gcd_ext_large uses 20-30M of the default 30M
     # integer/src/root_ops.rs `mod repr` sqrt_rem_large (bookkeeping around the ASSUMED Karatsuba root::sqrt_rem): normalising
     # shift even and <= 2*BITS-2, shifted buffer exactly 2n words with top word >= B/4, un-normalisation of root and remainder:
@@ -99,10 +100,8 @@ PROP_UNITS = {
                           '(u8 instance proved by Kani group base_gcd); cmp::cmp_in_place (numeric order of normalized words); '
                           'mul::multiply (trusted contract); scratch memory (allocate_slice_copy / _fill; SIZING not verified); '
                           'lib/repr_stubs.rs (Buffer / Repr)',
-                          'int_gcd_ops: KNOWN DEFECT excluded by precondition gcd_ext_large_pre -- gcd_ext of two multi-word '
-                          'operands where the smaller DIVIDES the larger and is more than two words shorter panics in '
-                          'div::div_rem_in_place (e.g. (UBig::ONE << 320).gcd_ext(&(UBig::ONE << 128))); the three forwarding Gcd '
-                          'impls (`self.as_ref().gcd(..)`) and the UBig/IBig-level macros (sign of the cofactors for IBig) are not '
+                          'int_gcd_ops: gcd_ext_large_pre is a resource bound only (operand length + 1 < Buffer::MAX_CAPACITY); the three '
+                          'forwarding Gcd impls (`self.as_ref().gcd(..)`) and the UBig/IBig-level macros (sign of the cofactors for IBig) are not '
                           'under contract',
                           'int_root_ops ASSUMES (lib/gcdo_root_lemmas.rs, trusted): root::sqrt_rem (Karatsuba square root, root.rs) '
                           'returns value(a) == s^2 + r, r <= 2s for a normalized 2n-word input -- only BOUNDED-checked by the Kani group '
